@@ -115,7 +115,7 @@ def run_kani_for(pid, u, repo, tier, seed):
     if tier == "thorough":
         filters += u.get("thorough_filters", [])
     timeout = u.get("timeout", 1500) * (3 if tier == "thorough" else 1)
-    cmd, rc, out, wall = run_group(filters, repo, timeout, extra=u.get("extra"))
+    cmd, rc, out, wall = run_group(filters, repo, timeout, extra=u.get("extra"), jobs=u.get("jobs"))
     res = parse_terse(out)
     info = {"engine": "kani", "group": u["group"], "cmd": cmd, "wall_s": round(wall, 1), "bounds": u.get("bounds"),
             "harnesses": {}, "assumptions": list(u.get("assumptions", []))}
@@ -240,6 +240,82 @@ def replay_values(short, hexes, repo, timeout=600):
     failed = re.findall(r"^REPLAY-FAILED (.*)$", p.stdout, flags=re.M)
     st = "reproduced" if failed else ("invalid" if "REPLAY-INVALID" in p.stdout else ("ok" if "REPLAY-OK" in p.stdout else "error"))
     return {"status": st, "native_failed_obligations": failed, "replay_cmd": f"cd {d} && " + " ".join(cmd), "native_output": (p.stdout + p.stderr)[-1500:]}
+
+def native_bin(repo):
+    """build (release) and return the path of the native replay binary for `repo`"""
+    d = crate_dir(repo)
+    e = env_for(repo)
+    e["CARGO_TARGET_DIR"] = e["CARGO_TARGET_DIR"] + "-native"
+    p = subprocess.run(["cargo", "build", "--offline", "--release", "-q", "--bin", "replay"], cwd=d, env=e, capture_output=True, text=True, timeout=1200)
+    if p.returncode != 0:
+        raise RuntimeError("native build failed: " + p.stderr[-800:])
+    return os.path.join(e["CARGO_TARGET_DIR"], "release", "replay")
+
+def enumerate_harness(short, repo, max_runs=20000000, timeout=900):
+    """exhaustive native walk of the decision tree of a harness body -> (status, runs, failed obligations, values)"""
+    b = native_bin(repo)
+    try:
+        p = subprocess.run([b, "--enumerate", short, str(max_runs)], capture_output=True, text=True, timeout=timeout)
+    except subprocess.TimeoutExpired:
+        return {"status": "timeout", "runs": 0}
+    out = p.stdout
+    m = re.search(r"ENUM-OK (\d+) runs", out)
+    if m:
+        return {"status": "ok", "runs": int(m.group(1))}
+    m = re.search(r"ENUM-FAILED after (\d+) runs: (.*)", out)
+    if m:
+        vm = re.search(r"ENUM-VALUES (.*)", out)
+        vals = [[int(x, 16)] for x in vm.group(1).split(",")] if vm and vm.group(1).strip() else []
+        return {"status": "failed", "runs": int(m.group(1)), "failed": [x.strip() for x in m.group(2).split("|") if x.strip()] + (["panic in the code under test"] if "ENUM-FAILED panic" in out else []),
+                "values": vals, "replay_cmd": f"{b} {short} " + ",".join(f"{v[0]:02x}" for v in vals)}
+    return {"status": "error", "runs": 0, "output": (out + p.stderr)[-800:]}
+
+def run_enum_for(pid, u, repo, tier, seed):
+    """u: {kind:'enum', group, harnesses:[short...], thorough_harnesses:[...]}: bounded stand-in, exhaustive native execution"""
+    hs = list(u["harnesses"]) + (u.get("thorough_harnesses", []) if tier == "thorough" else [])
+    t0 = time.time()
+    info = {"engine": "native-enumeration", "group": u["group"], "unit": u["group"], "harnesses": {}, "bounds": u.get("bounds"),
+            "cmd": "kani/target/release/replay --enumerate <harness>", "assumptions": list(u.get("assumptions", []))}
+    r = {"status": "ok", "obligations": 0, "discharged": 0, "violations": [], "info": info, "reason": ""}
+    total_runs = 0
+    try:
+        native_bin(repo)
+    except Exception as e:
+        r["status"] = "undecided"; r["reason"] = str(e)[:600]
+        return r
+    samples = []
+    for h in hs:
+        x = enumerate_harness(h, repo)
+        info["harnesses"][h] = {k: x.get(k) for k in ("status", "runs")}
+        r["obligations"] += 1
+        if x["status"] == "ok":
+            r["discharged"] += 1
+            total_runs += x["runs"]
+            if len(samples) < 6:
+                samples.append({"harness": h, "decision_tree_leaves_executed": x["runs"]})
+        elif x["status"] == "failed":
+            mine = [c for c in x["failed"] if any(pid in m.group(1).split(",") for m in PID_RE.finditer(c))]
+            if pid == "C12" and any("panic" in c for c in x["failed"]):
+                mine.append("panic in the code under test")
+            if mine:
+                names = sorted({m.group(2) for c in mine for m in PID_RE.finditer(c) if pid in m.group(1).split(",")}) or ["panic"]
+                r["status"] = "violation"
+                r["violations"].append({"key": f"enum:{h}:{'+'.join(names)}", "desc": f"native enumeration of harness {h}: failed obligation(s) {', '.join(names)} after {x['runs']} runs",
+                                        "payload": {"engine": "native-enumeration", "harness": h, "failed_checks": mine,
+                                                    "failing_input": {"status": "reproduced", "harness": h, "values": x["values"], "native_failed_obligations": x["failed"], "replay_cmd": x["replay_cmd"]}},
+                                        "ce_harnesses": {}})
+            else:
+                r["discharged"] += 1   # the failure belongs to another property
+        else:
+            if r["status"] == "ok": r["status"] = "undecided"
+            r["reason"] += f" {h}: {x['status']} {x.get('output', '')[:200]};"
+    info["wall_s"] = round(time.time() - t0, 1)
+    info["evaluations"] = total_runs
+    info["distinct_nontrivial"] = total_runs
+    info["rule"] = "one evaluation = one complete execution of a harness body on the real code for one leaf of its decision tree (every key choice x value choice x Continue/Break answer sequence within the stated bounds); all leaves are distinct inputs"
+    info["samples"] = samples
+    info["exhaustive"] = True
+    return r
 
 def find_counterexample(pid, v, repo):
     """for a failed Verus obligation: try the bounded Kani harnesses registered for the same function"""
